@@ -37,10 +37,10 @@ func evyRepoDir() string {
 }
 
 type svgConsts struct {
-	ints    map[string]int64   // const ( name = int )
-	floats  map[string]float64 // var name = float
-	structs map[string]map[string]ast.Expr
-	root    map[string]map[string]ast.Expr // "Attr"/"TextAttr" literal inside SVG{...} in NewGraphicsPlatform
+	ints                    map[string]int64   // const ( name = int )
+	floats                  map[string]float64 // var name = float
+	structs                 map[string]map[string]ast.Expr
+	root                    map[string]map[string]ast.Expr // "Attr"/"TextAttr" literal inside SVG{...} in NewGraphicsPlatform
 	clearDefault, clearSize string
 	gridThick, gridBound    float64
 	gridEvery               int64
